@@ -16,6 +16,7 @@ CONSTANTS
  Probes = FALSE
  Exts = {FALSE}
  KeepSlots = FALSE
+ TarUnverified = TRUE
 INIT Init
 NEXT Next
 VIEW View
